@@ -520,22 +520,23 @@ impl ASession {
                     for (p, n) in self.universe.iter().zip(snap.iter()) {
                         match n[0] {
                             0 => {}
-                            1 => apath(cx, root, p).create_dir().await.expect("populate layer dir"),
-                            _ => {
-                                let mut h = apath(cx, root, p).create_file().await.expect("populate layer file");
-                                h.write_all(&conc_bytes(&n[1..], cx.b)).await.unwrap();
-                                h.flush().await.unwrap();
-
-                            }
+                            1 => crate::session::pop_check("create_dir", p, aguard(apath(cx, root, p).create_dir()).await),
+                            _ => crate::session::pop_check("create_file+write", p, aguard(async {
+                                let mut h = apath(cx, root, p).create_file().await?;
+                                h.write_all(&conc_bytes(&n[1..], cx.b)).await.map_err(|e| vfs::VfsError::from(vfs::error::VfsErrorKind::IoError(e)))?;
+                                h.flush().await.map_err(|e| vfs::VfsError::from(vfs::error::VfsErrorKind::IoError(e)))
+                            }).await),
                         }
                     }
                 }
             }
             for m in markers {
                 let p = self.w.layers[0].join(format!(".whiteout/{}_wo", cx.names.conc_path(m))).expect("marker path");
-                p.parent().create_dir_all().await.expect("marker parent");
-                let mut h = p.create_file().await.expect("marker file");
-                h.flush().await.unwrap();
+                crate::session::pop_check("marker create_dir_all", m, aguard(p.parent().create_dir_all()).await);
+                crate::session::pop_check("marker create_file", m, aguard(async {
+                    let mut h = p.create_file().await?;
+                    h.flush().await.map_err(|e| vfs::VfsError::from(vfs::error::VfsErrorKind::IoError(e)))
+                }).await);
 
             }
         });
@@ -547,12 +548,12 @@ impl ASession {
             for (p, n) in self.universe.iter().zip(snap.iter()) {
                 match n[0] {
                     0 => {}
-                    1 => apath(cx, &self.w.root, p).create_dir().await.expect("populate dir"),
-                    _ => {
-                        let mut h = apath(cx, &self.w.root, p).create_file().await.expect("populate file");
-                        h.write_all(&conc_bytes(&n[1..], cx.b)).await.unwrap();
-                        h.flush().await.unwrap();
-                    }
+                    1 => crate::session::pop_check("create_dir", p, aguard(apath(cx, &self.w.root, p).create_dir()).await),
+                    _ => crate::session::pop_check("create_file+write", p, aguard(async {
+                        let mut h = apath(cx, &self.w.root, p).create_file().await?;
+                        h.write_all(&conc_bytes(&n[1..], cx.b)).await.map_err(|e| vfs::VfsError::from(vfs::error::VfsErrorKind::IoError(e)))?;
+                        h.flush().await.map_err(|e| vfs::VfsError::from(vfs::error::VfsErrorKind::IoError(e)))
+                    }).await),
                 }
             }
         });
@@ -580,6 +581,10 @@ impl ASession {
                 .collect();
             e["layers"] = Value::Array(layers);
             e["wo"] = json!(markers);
+        }
+        let pf = crate::session::take_popfail();
+        if !pf.is_empty() {
+            e["popfail"] = json!(pf);
         }
         e
     }
